@@ -213,6 +213,11 @@ func load(repo string, tests bool) *Ctx {
 				})
 			}
 			if bad {
+				if d := os.Getenv("CHFCHECK_DUMP_OVERLAY"); d != "" {
+					for name, b := range next {
+						_ = os.WriteFile(filepath.Join(d, strings.ReplaceAll(strings.TrimPrefix(name, repo+"/"), "/", "__")+".failed"), b, 0o644)
+					}
+				}
 				break
 			}
 			overlay, curPkgs, curFset = next, p2, fs
